@@ -1,0 +1,663 @@
+//! Verification hook (only compiled with `--cfg sccache_verif`): drives the real
+//! `Scheduler` with scripted message sequences and prints its private maps.
+//!
+//! `sccache-dist __verif_sched` reads one case per stdin line and prints one
+//! observation line per case.  A case is a list of messages:
+//!
+//! ```text
+//!   (hb S NONCE CPUS [1])    handle_heartbeat_server; with the trailing 1 the server's
+//!                            JobAuthorizer fails to generate tokens
+//!   (begin (S ...))          start handle_alloc_job on its own thread and run it up to
+//!                            the unlocked window (do_assign_job); the list is the order in
+//!                            which the servers HashMap is made to iterate (preferred ids
+//!                            first, the rest ascending)
+//!   (end_ok JOB STATE)       let the do_assign_job call for JOB succeed with STATE
+//!   (end_fail JOB)           let the do_assign_job call for JOB fail
+//!   (upd JOB S STATE)        handle_update_job_state
+//!   (status)                 handle_status
+//! ```
+//!
+//! Everything between a `begin` and the matching `end_*` runs while that
+//! handle_alloc_job call sits in its window without holding any lock, which is
+//! exactly what other request threads of the real HTTP server can do.  The
+//! threads are fully synchronised through channels, so a run is deterministic.
+//! No timeout of the scheduler (dead server, stale job, forgotten error) can
+//! fire: a case runs in well under a second and is refused if it took longer
+//! than `MAX_CASE_SECS`.
+
+use super::{JobDetail, Scheduler};
+use sccache::dist::{
+    AllocJobResult, AssignJobResult, JobAuthorizer, JobId, JobState, SchedulerIncoming,
+    SchedulerOutgoing, ServerId, ServerNonce, Toolchain, UpdateJobStateResult,
+};
+use std::collections::HashMap;
+use std::io::{BufRead, Write};
+use std::net::{IpAddr, Ipv4Addr, SocketAddr};
+use std::panic::{catch_unwind, AssertUnwindSafe};
+use std::sync::mpsc::{channel, Receiver, Sender};
+use std::sync::Arc;
+use std::thread::JoinHandle;
+use std::time::Instant;
+
+use self::sx::Sx;
+
+const MAX_CASE_SECS: u64 = 20;
+
+/// `fails`: this server's authorizer cannot create tokens (scripted per registration).
+struct Authorizer {
+    fails: bool,
+}
+impl JobAuthorizer for Authorizer {
+    fn generate_token(&self, job_id: JobId) -> anyhow::Result<String> {
+        if self.fails {
+            anyhow::bail!("scripted generate_token failure")
+        }
+        Ok(format!("token-{}", job_id))
+    }
+    fn verify_token(&self, _job_id: JobId, _token: &str) -> anyhow::Result<()> {
+        Ok(())
+    }
+}
+
+enum Event {
+    Window(JobId, ServerId),
+    Returned(Result<anyhow::Result<AllocJobResult>, ()>),
+}
+
+enum Reply {
+    Succeed(JobState),
+    Fail,
+}
+
+/// The scheduler's view of the network: `do_assign_job` reports that the call
+/// reached the window and then waits for the scripted outcome.
+struct Requester {
+    events: Sender<Event>,
+    replies: Receiver<Reply>,
+}
+
+impl SchedulerOutgoing for Requester {
+    fn do_assign_job(
+        &self,
+        server_id: ServerId,
+        job_id: JobId,
+        _tc: Toolchain,
+        _auth: String,
+    ) -> anyhow::Result<AssignJobResult> {
+        let _ = self.events.send(Event::Window(job_id, server_id));
+        match self.replies.recv() {
+            Ok(Reply::Succeed(state)) => Ok(AssignJobResult {
+                state,
+                need_toolchain: false,
+            }),
+            Ok(Reply::Fail) | Err(_) => {
+                // make sure two scripted failures never carry the same Instant
+                let t0 = Instant::now();
+                while Instant::now() == t0 {}
+                Err(anyhow::anyhow!("scripted do_assign_job failure"))
+            }
+        }
+    }
+}
+
+struct InFlight {
+    server: u64,
+    replies: Sender<Reply>,
+    events: Receiver<Event>,
+    thread: JoinHandle<()>,
+}
+
+struct World {
+    sched: Arc<Scheduler>,
+    nonces: HashMap<u64, ServerNonce>,
+    inflight: Vec<(u64, InFlight)>,
+}
+
+fn server_id(s: u64) -> ServerId {
+    ServerId::new(SocketAddr::new(
+        IpAddr::V4(Ipv4Addr::new(10, 0, (s >> 8) as u8, s as u8)),
+        4000,
+    ))
+}
+
+fn server_no(id: ServerId) -> u64 {
+    match id.addr().ip() {
+        IpAddr::V4(a) => ((a.octets()[2] as u64) << 8) | a.octets()[3] as u64,
+        IpAddr::V6(_) => u64::MAX,
+    }
+}
+
+fn state_of(x: &Sx) -> JobState {
+    match x.str().as_str() {
+        "pending" => JobState::Pending,
+        "ready" => JobState::Ready,
+        "started" => JobState::Started,
+        _ => JobState::Complete,
+    }
+}
+
+fn state_sym(s: JobState) -> Sx {
+    Sx::sym(match s {
+        JobState::Pending => "pending",
+        JobState::Ready => "ready",
+        JobState::Started => "started",
+        JobState::Complete => "complete",
+    })
+}
+
+fn l(v: Vec<Sx>) -> Sx {
+    Sx::L(v)
+}
+
+impl World {
+    fn new() -> World {
+        World {
+            sched: Arc::new(Scheduler::new()),
+            nonces: HashMap::new(),
+            inflight: Vec::new(),
+        }
+    }
+
+    fn nonce(&mut self, n: u64) -> ServerNonce {
+        loop {
+            if let Some(x) = self.nonces.get(&n) {
+                return x.clone();
+            }
+            let fresh = ServerNonce::new();
+            if !self.nonces.values().any(|x| *x == fresh) {
+                self.nonces.insert(n, fresh);
+            }
+        }
+    }
+
+    fn nonce_no(&self, x: &ServerNonce) -> u64 {
+        self.nonces
+            .iter()
+            .find(|(_, v)| *v == x)
+            .map(|(k, _)| *k)
+            .unwrap_or(u64::MAX)
+    }
+
+    /// Make the servers map iterate in the scripted order.  The iteration
+    /// order of a HashMap is arbitrary, so every order is a behaviour the real
+    /// scheduler can show; the map is rebuilt (same entries, new hasher state)
+    /// until the wanted one comes up.
+    fn force_iteration_order(&self, pref: &[u64]) {
+        let mut servers = match self.sched.servers.lock() {
+            Ok(g) => g,
+            Err(_) => return,
+        };
+        let mut want: Vec<u64> = vec![];
+        for &p in pref {
+            if !want.contains(&p) && servers.contains_key(&server_id(p)) {
+                want.push(p);
+            }
+        }
+        let mut rest: Vec<u64> = servers
+            .keys()
+            .map(|k| server_no(*k))
+            .filter(|k| !pref.contains(k))
+            .collect();
+        rest.sort_unstable();
+        want.extend(rest);
+        for _ in 0..100_000 {
+            let got: Vec<u64> = servers.keys().map(|k| server_no(*k)).collect();
+            if got == want {
+                return;
+            }
+            let entries: Vec<_> = servers.drain().collect();
+            let mut fresh = HashMap::new();
+            fresh.extend(entries);
+            *servers = fresh;
+        }
+        panic!("verif_sched: could not force the iteration order");
+    }
+
+    fn alloc_result(r: Result<anyhow::Result<AllocJobResult>, ()>, job: Option<(u64, u64)>) -> Sx {
+        match r {
+            Err(()) => l(vec![Sx::sym("panic")]),
+            Ok(Ok(AllocJobResult::Success { job_alloc, .. })) => l(vec![
+                Sx::sym("alloc_ok"),
+                Sx::n(job_alloc.job_id.0),
+                Sx::n(server_no(job_alloc.server_id)),
+            ]),
+            Ok(Ok(AllocJobResult::Fail { msg })) => {
+                if let Some(rest) = msg.strip_prefix("Insufficient capacity across ") {
+                    let n: u64 = rest
+                        .split(' ')
+                        .next()
+                        .and_then(|x| x.parse().ok())
+                        .unwrap_or(u64::MAX);
+                    l(vec![Sx::sym("nocap"), Sx::n(n)])
+                } else {
+                    let (j, s) = job.unwrap_or((u64::MAX, u64::MAX));
+                    l(vec![Sx::sym("alloc_gone"), Sx::n(j), Sx::n(s)])
+                }
+            }
+            Ok(Err(e)) => {
+                let m = format!("{}", e);
+                let k = if m.contains("Could not create an auth token") {
+                    "token"
+                } else if m.contains("job un-assigned from the server") {
+                    "unassigned"
+                } else if m.contains("job not known to the server") {
+                    "job_not_known"
+                } else if m.contains("server not known") {
+                    "server_not_known"
+                } else {
+                    "other"
+                };
+                l(vec![Sx::sym("alloc_err"), Sx::sym(k)])
+            }
+        }
+    }
+
+    fn finish(&mut self, job: u64, reply: Reply) -> Sx {
+        let pos = match self.inflight.iter().position(|(j, _)| *j == job) {
+            Some(p) => p,
+            None => return l(vec![Sx::sym("not_in_flight")]),
+        };
+        let (_, f) = self.inflight.remove(pos);
+        let _ = f.replies.send(reply);
+        let r = match f.events.recv() {
+            Ok(Event::Returned(r)) => r,
+            _ => Err(()),
+        };
+        let _ = f.thread.join();
+        Self::alloc_result(r, Some((job, f.server)))
+    }
+
+    fn apply(&mut self, op: &Sx) -> Sx {
+        let tag = op.tag();
+        match tag.as_str() {
+            "hb" => {
+                let sid = server_id(op.arg(1).u64());
+                let nonce = self.nonce(op.arg(2).u64());
+                let cpus = op.arg(3).u64() as usize;
+                let fails = op.arg(4).u64() != 0;
+                let sched = self.sched.clone();
+                match catch_unwind(AssertUnwindSafe(|| {
+                    sched.handle_heartbeat_server(sid, nonce, cpus, Box::new(Authorizer { fails }))
+                })) {
+                    Err(_) => l(vec![Sx::sym("panic")]),
+                    Ok(Err(_)) => l(vec![Sx::sym("hb_err")]),
+                    Ok(Ok(r)) => l(vec![Sx::sym("hb"), Sx::bool(r.is_new)]),
+                }
+            }
+            "upd" => {
+                let job = JobId(op.arg(1).u64());
+                let sid = server_id(op.arg(2).u64());
+                let st = state_of(op.arg(3));
+                let sched = self.sched.clone();
+                match catch_unwind(AssertUnwindSafe(|| {
+                    sched.handle_update_job_state(job, sid, st)
+                })) {
+                    Err(_) => l(vec![Sx::sym("panic")]),
+                    Ok(Ok(UpdateJobStateResult::Success)) => l(vec![Sx::sym("upd"), Sx::sym("ok")]),
+                    Ok(Ok(UpdateJobStateResult::Fail { .. })) => {
+                        l(vec![Sx::sym("upd"), Sx::sym("fail")])
+                    }
+                    Ok(Err(e)) => {
+                        let m = format!("{}", e);
+                        let k = if m.contains("is not registered on server") {
+                            "not_owner"
+                        } else if m.contains("Invalid job state transition") {
+                            "invalid"
+                        } else if m.contains("Unknown job") {
+                            "unknown"
+                        } else if m.contains("server is not known") {
+                            "server_unknown"
+                        } else {
+                            "other"
+                        };
+                        l(vec![Sx::sym("upd"), Sx::sym(k)])
+                    }
+                }
+            }
+            "status" => {
+                let sched = self.sched.clone();
+                match catch_unwind(AssertUnwindSafe(|| sched.handle_status())) {
+                    Err(_) => l(vec![Sx::sym("panic")]),
+                    Ok(Err(_)) => l(vec![Sx::sym("status_err")]),
+                    Ok(Ok(r)) => l(vec![
+                        Sx::sym("status"),
+                        Sx::usize(r.num_servers),
+                        Sx::usize(r.num_cpus),
+                        Sx::usize(r.in_progress),
+                    ]),
+                }
+            }
+            "begin" => {
+                let pref: Vec<u64> = op.arg(1).list().iter().map(|x| x.u64()).collect();
+                self.force_iteration_order(&pref);
+                let (ev_tx, ev_rx) = channel();
+                let (re_tx, re_rx) = channel();
+                let sched = self.sched.clone();
+                let thread = std::thread::spawn(move || {
+                    let requester = Requester {
+                        events: ev_tx.clone(),
+                        replies: re_rx,
+                    };
+                    let tc = Toolchain {
+                        archive_id: "verif".to_owned(),
+                    };
+                    let r =
+                        catch_unwind(AssertUnwindSafe(|| sched.handle_alloc_job(&requester, tc)))
+                            .map_err(|_| ());
+                    let _ = ev_tx.send(Event::Returned(r));
+                });
+                match ev_rx.recv() {
+                    Ok(Event::Window(job, sid)) => {
+                        let s = server_no(sid);
+                        self.inflight.push((
+                            job.0,
+                            InFlight {
+                                server: s,
+                                replies: re_tx,
+                                events: ev_rx,
+                                thread,
+                            },
+                        ));
+                        l(vec![Sx::sym("window"), Sx::n(job.0), Sx::n(s)])
+                    }
+                    Ok(Event::Returned(r)) => {
+                        let _ = thread.join();
+                        Self::alloc_result(r, None)
+                    }
+                    Err(_) => {
+                        let _ = thread.join();
+                        l(vec![Sx::sym("panic")])
+                    }
+                }
+            }
+            "end_ok" => self.finish(op.arg(1).u64(), Reply::Succeed(state_of(op.arg(2)))),
+            "end_fail" => self.finish(op.arg(1).u64(), Reply::Fail),
+            _ => l(vec![Sx::sym("bad_op")]),
+        }
+    }
+
+    /// The private maps, canonically sorted.
+    fn observe(&self, res: Sx) -> Sx {
+        let pj = self.sched.jobs.is_poisoned();
+        let ps = self.sched.servers.is_poisoned();
+        let jobs = self.sched.jobs.lock().unwrap_or_else(|e| e.into_inner());
+        let servers = self.sched.servers.lock().unwrap_or_else(|e| e.into_inner());
+        let count = self
+            .sched
+            .job_count
+            .load(std::sync::atomic::Ordering::SeqCst);
+        let js: Vec<Sx> = jobs
+            .iter()
+            .map(|(id, &JobDetail { server_id, state })| {
+                l(vec![
+                    Sx::n(id.0),
+                    Sx::n(server_no(server_id)),
+                    state_sym(state),
+                ])
+            })
+            .collect();
+        let mut errs: Vec<Instant> = servers.values().filter_map(|d| d.last_error).collect();
+        errs.sort();
+        let mut ss: Vec<(u64, Sx)> = servers
+            .iter()
+            .map(|(id, d)| {
+                let mut assigned: Vec<u64> = d.jobs_assigned.iter().map(|j| j.0).collect();
+                assigned.sort_unstable();
+                let mut unclaimed: Vec<u64> = d.jobs_unclaimed.keys().map(|j| j.0).collect();
+                unclaimed.sort_unstable();
+                // rank of the last error among all servers' last errors (0 = none)
+                let rank = match d.last_error {
+                    None => 0,
+                    Some(t) => 1 + errs.iter().filter(|x| **x < t).count(),
+                };
+                (
+                    server_no(*id),
+                    l(vec![
+                        Sx::n(server_no(*id)),
+                        Sx::n(self.nonce_no(&d.server_nonce)),
+                        Sx::usize(d.num_cpus),
+                        Sx::bool(d.job_authorizer.generate_token(JobId(u64::MAX)).is_err()),
+                        Sx::usize(rank),
+                        l(assigned.into_iter().map(Sx::n).collect()),
+                        l(unclaimed.into_iter().map(Sx::n).collect()),
+                    ]),
+                )
+            })
+            .collect();
+        ss.sort_by_key(|x| x.0);
+        let mut fl: Vec<(u64, u64)> = self.inflight.iter().map(|(j, f)| (*j, f.server)).collect();
+        fl.sort_unstable();
+        l(vec![
+            res,
+            Sx::bool(pj),
+            Sx::bool(ps),
+            Sx::usize(count),
+            l(js),
+            l(ss.into_iter().map(|x| x.1).collect()),
+            l(fl.into_iter()
+                .map(|(j, s)| l(vec![Sx::n(j), Sx::n(s)]))
+                .collect()),
+        ])
+    }
+
+    fn shutdown(&mut self) {
+        // calls still in their window: let them fail and finish
+        let jobs: Vec<u64> = self.inflight.iter().map(|(j, _)| *j).collect();
+        for j in jobs {
+            self.finish(j, Reply::Fail);
+        }
+    }
+}
+
+fn run_case(case: &Sx) -> Sx {
+    let t0 = Instant::now();
+    let mut w = World::new();
+    let mut out = vec![];
+    for op in case.list() {
+        let r = w.apply(op);
+        out.push(w.observe(r));
+    }
+    w.shutdown();
+    if t0.elapsed().as_secs() >= MAX_CASE_SECS {
+        return l(vec![Sx::sym("hook_too_slow")]);
+    }
+    l(out)
+}
+
+pub fn main() {
+    std::panic::set_hook(Box::new(|_| {}));
+    let stdin = std::io::stdin();
+    let stdout = std::io::stdout();
+    let mut out = std::io::BufWriter::new(stdout.lock());
+    for line in stdin.lock().lines() {
+        let line = line.expect("stdin");
+        let t = line.trim();
+        if t.is_empty() || t.starts_with(';') {
+            writeln!(out, "()").unwrap();
+            continue;
+        }
+        let r = match Sx::parse(t) {
+            Ok(x) => run_case(&x),
+            Err(e) => l(vec![Sx::sym("harness_parse_error"), Sx::B(e.into_bytes())]),
+        };
+        writeln!(out, "{}", r).unwrap();
+    }
+    out.flush().unwrap();
+}
+
+/// The case / observation text format shared with the checker:
+/// `123` number, `#68690a` bytes, `ident`, `( a b c )` list.
+mod sx {
+    use std::fmt;
+
+    #[derive(Clone, Debug, PartialEq, Eq)]
+    pub enum Sx {
+        N(u128),
+        B(Vec<u8>),
+        L(Vec<Sx>),
+    }
+
+    fn is_ident(b: &[u8]) -> bool {
+        if b.is_empty() {
+            return false;
+        }
+        let c0 = b[0];
+        if !(c0.is_ascii_alphabetic() || c0 == b'_') {
+            return false;
+        }
+        b.iter()
+            .all(|&c| c.is_ascii_alphanumeric() || matches!(c, b'_' | b'.' | b'/' | b'+' | b'-'))
+    }
+
+    impl fmt::Display for Sx {
+        fn fmt(&self, f: &mut fmt::Formatter<'_>) -> fmt::Result {
+            match self {
+                Sx::N(n) => write!(f, "{}", n),
+                Sx::B(b) => {
+                    if is_ident(b) {
+                        write!(f, "{}", std::str::from_utf8(b).unwrap())
+                    } else {
+                        write!(f, "#")?;
+                        for c in b {
+                            write!(f, "{:02x}", c)?;
+                        }
+                        Ok(())
+                    }
+                }
+                Sx::L(l) => {
+                    write!(f, "(")?;
+                    for (i, x) in l.iter().enumerate() {
+                        if i > 0 {
+                            write!(f, " ")?;
+                        }
+                        write!(f, "{}", x)?;
+                    }
+                    write!(f, ")")
+                }
+            }
+        }
+    }
+
+    impl Sx {
+        pub fn sym(s: &str) -> Sx {
+            Sx::B(s.as_bytes().to_vec())
+        }
+        pub fn bool(b: bool) -> Sx {
+            Sx::N(if b { 1 } else { 0 })
+        }
+        pub fn n<T: Into<u128>>(n: T) -> Sx {
+            Sx::N(n.into())
+        }
+        pub fn usize(n: usize) -> Sx {
+            Sx::N(n as u128)
+        }
+        pub fn list(&self) -> &[Sx] {
+            match self {
+                Sx::L(l) => l,
+                _ => &[],
+            }
+        }
+        pub fn bytes(&self) -> &[u8] {
+            match self {
+                Sx::B(b) => b,
+                _ => &[],
+            }
+        }
+        pub fn u64(&self) -> u64 {
+            match self {
+                Sx::N(n) => *n as u64,
+                _ => 0,
+            }
+        }
+        pub fn str(&self) -> String {
+            String::from_utf8_lossy(self.bytes()).into_owned()
+        }
+        pub fn tag(&self) -> String {
+            self.list().first().map(|x| x.str()).unwrap_or_default()
+        }
+        pub fn arg(&self, i: usize) -> &Sx {
+            static NIL: Sx = Sx::L(Vec::new());
+            self.list().get(i).unwrap_or(&NIL)
+        }
+
+        pub fn parse(s: &str) -> Result<Sx, String> {
+            let b = s.as_bytes();
+            let mut pos = 0;
+            let v = parse_at(b, &mut pos)?;
+            skip_ws(b, &mut pos);
+            if pos != b.len() {
+                return Err(format!("trailing input at {}", pos));
+            }
+            Ok(v)
+        }
+    }
+
+    fn skip_ws(b: &[u8], pos: &mut usize) {
+        while *pos < b.len() && b[*pos].is_ascii_whitespace() {
+            *pos += 1;
+        }
+    }
+
+    fn hexval(c: u8) -> Option<u8> {
+        match c {
+            b'0'..=b'9' => Some(c - b'0'),
+            b'a'..=b'f' => Some(c - b'a' + 10),
+            b'A'..=b'F' => Some(c - b'A' + 10),
+            _ => None,
+        }
+    }
+
+    fn parse_at(b: &[u8], pos: &mut usize) -> Result<Sx, String> {
+        skip_ws(b, pos);
+        if *pos >= b.len() {
+            return Err("unexpected end".into());
+        }
+        let c = b[*pos];
+        if c == b'(' {
+            *pos += 1;
+            let mut items = vec![];
+            loop {
+                skip_ws(b, pos);
+                if *pos >= b.len() {
+                    return Err("unclosed (".into());
+                }
+                if b[*pos] == b')' {
+                    *pos += 1;
+                    return Ok(Sx::L(items));
+                }
+                items.push(parse_at(b, pos)?);
+            }
+        } else if c == b'#' {
+            *pos += 1;
+            let mut out = vec![];
+            while *pos < b.len() && hexval(b[*pos]).is_some() {
+                let h = hexval(b[*pos]).unwrap();
+                let lo = match b.get(*pos + 1).and_then(|&c| hexval(c)) {
+                    Some(lo) => lo,
+                    None => return Err("odd hex".into()),
+                };
+                out.push(h * 16 + lo);
+                *pos += 2;
+            }
+            Ok(Sx::B(out))
+        } else if c.is_ascii_digit() {
+            let st = *pos;
+            while *pos < b.len() && b[*pos].is_ascii_digit() {
+                *pos += 1;
+            }
+            let s = std::str::from_utf8(&b[st..*pos]).unwrap();
+            s.parse::<u128>().map(Sx::N).map_err(|e| e.to_string())
+        } else if c.is_ascii_alphabetic() || c == b'_' {
+            let st = *pos;
+            while *pos < b.len()
+                && (b[*pos].is_ascii_alphanumeric()
+                    || matches!(b[*pos], b'_' | b'.' | b'/' | b'+' | b'-'))
+            {
+                *pos += 1;
+            }
+            Ok(Sx::B(b[st..*pos].to_vec()))
+        } else {
+            Err(format!("unexpected char {:?} at {}", c as char, *pos))
+        }
+    }
+}
